@@ -17,6 +17,9 @@ const (
 func (its *MongoCollections) GetNextCollectionNum(ctx iface.OrdaContext) (int32, errors.OrdaError) {
 	opts := options.FindOneAndUpdate()
 	opts.SetUpsert(true)
+	// the incremented counter is the new number; the default (the document before the update) made
+	// the first collection get 1 (no document yet) and the second one 1 again (the value before its increment)
+	opts.SetReturnDocument(options.After)
 	var update = bson.M{
 		"$inc": bson.M{schema.CounterDocFields.Num: 1},
 	}
